@@ -12,3 +12,5 @@ func verifPoint(name string) {}
 func verifRead(t *table, offset wal.Offset) {}
 
 func verifReadInit(t *table, offset wal.Offset) {}
+
+func verifCoalesced(t *table, n int) {}
